@@ -80,12 +80,27 @@ GroupFirst(k) ==
   IF k > 1 /\ Has(Trace[k-1].case, "group") /\ Trace[k-1].case.group.id = Trace[k].case.group.id
   THEN GroupFirst(k - 1) ELSE k
 
+IsGroupLast(k) == k = Len(Trace) \/ ~Has(Trace[k+1].case, "group") \/ Trace[k+1].case.group.id # Trace[k].case.group.id
+
 GroupVerdicts(k) ==
   LET o == Trace[k] IN
   IF ~Has(o.case, "group") THEN {}
-  ELSE LET f == GroupFirst(k) IN
-       IF f = k \/ GroupSummary(Trace[f]) = GroupSummary(o) THEN {}
-       ELSE {Fail(o.case.group.p, o.case.group.rel, "")}
+  ELSE LET f == GroupFirst(k)
+           rel == o.case.group.rel
+       IN IF rel = "c08" THEN
+             (IF \A j \in f..(k - 1) : C08PairOK(Trace[j], o) THEN {} ELSE {Fail("C08", "draw-not-independent-or-monotone", "")})
+             \cup (IF Has(o.case.group, "sameAsFirst") /\ o.case.group.sameAsFirst /\ ~(o.status = Trace[f].status /\ o.resp = Trace[f].resp)
+                   THEN {Fail("C08", "disabled-not-equivalent-to-absent", "")} ELSE {})
+          ELSE IF rel = "c08freq" THEN
+             (IF ~IsGroupLast(k) THEN {}
+              ELSE LET n == k - f + 1
+                       cnt(pos) == Cardinality({j \in f..k : Trace[j].status = 200 /\ Len(FiredVec(Trace[j])) >= pos /\ FiredVec(Trace[j])[pos]})
+                   IN IF \A pos \in 1..3 : C08FreqOK(cnt(pos), n, pos) THEN {} ELSE {Fail("C08", "frequency", "")})
+          ELSE IF rel = "samereq" THEN
+             (IF \A j \in f..(k - 1) : Trace[j].case.req = o.case.req => (Trace[j].status = o.status /\ Trace[j].resp = o.resp)
+              THEN {} ELSE {Fail(o.case.group.p, "history-dependent", "")})
+          ELSE IF f = k \/ GroupSummary(Trace[f]) = GroupSummary(o) THEN {}
+          ELSE {Fail(o.case.group.p, rel, "")}
 
 Verdicts(k) ==
   LET o == Trace[k] IN
